@@ -152,7 +152,7 @@ func main() {
 	exportDuringImport(rep, args.Seed)
 	namedDatabases(rep)
 	// failure paths (spec/Faults.tla): every call of the operation through the OS interface fails once
-	faults.Run(rep, args, faults.Select{Ops: []string{"import"}, Monitors: []string{"image", "export", "restart", "mount"}})
+	faults.Run(rep, args, faults.Select{Ops: []string{"import"}, Monitors: []string{"image", "export", "restart"}})
 	rep.Finish()
 }
 
